@@ -413,6 +413,8 @@ pub struct Cluster {
     /// client writes still waiting for their answer: (tag, response receiver), in submission order
     writes: Vec<(u64, d_engine_core::MaybeCloneOneshotReceiver<std::result::Result<d_engine_core::ClientResponse, tonic::Status>>)>,
     new_acks: Vec<u64>,
+    /// nodes to which a prev=(0,0) request was delivered inside the last heal event (printed as `^i+j`)
+    heal_resets: std::collections::BTreeSet<u32>,
 }
 
 fn mock_sm() -> MockStateMachine {
@@ -491,6 +493,7 @@ impl Cluster {
             new_msgs: vec![],
             writes: vec![],
             new_acks: vec![],
+            heal_resets: Default::default(),
         };
         for _ in 1..=n {
             c.nodes.push(NodeBox {
@@ -611,6 +614,7 @@ impl Cluster {
     }
 
     pub async fn step(&mut self, ev: &str) {
+        self.heal_resets.clear();
         if let Some(k) = ev.strip_prefix("h:").and_then(|k| k.parse::<u64>().ok()) {
             return self.ev_heal(k).await;
         }
@@ -621,6 +625,7 @@ impl Cluster {
     async fn ev_heal(&mut self, k: u64) {
         let first_msg = self.next_msg;
         let mut acks = vec![];
+        let mut resets: Vec<u32> = vec![];
         for r in 0..k {
             // 1. finish pending elections
             for cand in 1..=self.n {
@@ -649,8 +654,15 @@ impl Cluster {
                         fuel -= 1;
                         let Some((&id, m)) = self.msgs.iter().next() else { break };
                         let ev = match m {
-                            Msg::Ae { to, .. } => {
-                                if self.is_up(*to) { format!("a:{}", id) } else { format!("d:{}", id) }
+                            Msg::Ae { to, req, .. } => {
+                                if self.is_up(*to) {
+                                    if req.prev_log_index == 0 && req.prev_log_term == 0 {
+                                        resets.push(*to);
+                                    }
+                                    format!("a:{}", id)
+                                } else {
+                                    format!("d:{}", id)
+                                }
                             }
                             Msg::Resp { .. } => format!("r:{}", id),
                         };
@@ -684,6 +696,7 @@ impl Cluster {
         }
         self.new_msgs = self.msgs.keys().copied().filter(|id| *id >= first_msg).collect();
         self.new_acks = acks;
+        self.heal_resets = resets.into_iter().collect();
     }
 
     async fn run_election_events(&mut self, cand: u32, acks: &mut Vec<u64>) {
@@ -1107,6 +1120,10 @@ impl Cluster {
         if !self.new_acks.is_empty() {
             out.push('!');
             out.push_str(&self.new_acks.iter().map(|t| t.to_string()).collect::<Vec<_>>().join("+"));
+        }
+        if !self.heal_resets.is_empty() {
+            out.push('^');
+            out.push_str(&self.heal_resets.iter().map(|t| t.to_string()).collect::<Vec<_>>().join("+"));
         }
         out
     }
